@@ -257,6 +257,9 @@ class MakeChild(Unit):
             c_has, c_val = z3.Or(chas(k), dh), z3.If(chas(k), cval(k), dv)
             st.oblige("a state without a father stores only non-default values", z3.ForAll([k], z3.Implies(chas(k), nondefault(fs, k, cval(k)))))
             st.oblige("a state without a father has no ancestors", zint(f["_ancestors"]) == 0)
+        elif isinstance(father, SUnion):
+            st.oblige("the father of an uncondensed child is the state it was made from", z3.BoolVal(False))
+            return
         else:
             st.oblige("the father of an uncondensed child is the state it was made from", father.z == me.z)
             c_has = z3.Or(chas(k), p_has)
